@@ -590,6 +590,13 @@ fn execute(line: &str) -> Result<String, String> {
             }
             s
         }
+        "clamp" => {
+            // Ord::clamp is a provided method (it can be overridden); lo > hi must panic
+            let x = pdec(arg(1)?)?;
+            let lo = pdec(arg(2)?)?;
+            let hi = pdec(arg(3)?)?;
+            dec(x.clamp(lo, hi))
+        }
         "minmax" => {
             let x = pdec(arg(1)?)?;
             let y = pdec(arg(2)?)?;
@@ -821,7 +828,16 @@ mod full {
                     {
                         let _ = <Decimal as Num>::from_str_radix("1", 10);
                         let _ = e;
-                        "-"
+                        // the provided methods too (they can be overridden): set_zero / set_one
+                        let mut z = d;
+                        Zero::set_zero(&mut z);
+                        let mut o = d;
+                        One::set_one(&mut o);
+                        format!(
+                            "{}{}",
+                            b(z.coefficient() == 0 && z == Decimal::ZERO),
+                            b(o == Decimal::ONE && o.coefficient() > 0)
+                        )
                     }
                 )
             }
